@@ -45,6 +45,7 @@ type attFile struct {
 	Content string   `json:"-"`
 	Size    int      `json:"size"`
 	ContSd  uint64   `json:"content_seed"`
+	Type    byte     `json:"file_type"`
 	Chunks  [][2]int `json:"chunks_in_send_order"` // offset, length (before the first 0x1212)
 	Resend  [][2]int `json:"resent_after_first_1212,omitempty"`
 }
@@ -118,14 +119,14 @@ func attBuild(p *attPlan) *attBuilt {
 	}
 	c1211 := func(i int) {
 		s := serial
-		ctrl(0x1211, att.Body1211(b.files[i], byte(i%5)), i)
+		ctrl(0x1211, att.Body1211(b.files[i], p.Files[i].Type), i)
 		b.expect = append(b.expect, general(0x1211, s))
 	}
 	c1212 := func(i int) {
 		af := b.files[i]
 		miss := ref.MissingRanges(af.Size, got[i])
 		body := append([]byte{byte(len(af.Name))}, af.Name...)
-		body = append(body, byte(i%5))
+		body = append(body, p.Files[i].Type)
 		if len(miss) == 0 {
 			body = append(body, 0, 0)
 		} else {
@@ -134,7 +135,7 @@ func attBuild(p *attPlan) *attBuilt {
 				body = append(body, byte(m.Off>>24), byte(m.Off>>16), byte(m.Off>>8), byte(m.Off), byte(m.Len>>24), byte(m.Len>>16), byte(m.Len>>8), byte(m.Len))
 			}
 		}
-		ctrl(0x1212, att.Body1211(af, byte(i%5)), i)
+		ctrl(0x1212, att.Body1211(af, p.Files[i].Type), i)
 		b.expect = append(b.expect, &ref.Reply{ID: 0x9212, Body: body})
 	}
 	resend := func(i int) {
@@ -459,7 +460,10 @@ func attGenPlan(g gen.G, idx int, gaps bool) *attPlan {
 		}
 		nameBytes := attName(g, mn, marker && g.Bool(), i)
 		budget -= len(nameBytes) + 5
-		f := attFile{Name: core.Hex(nameBytes), Size: size, ContSd: g.U64()}
+		f := attFile{Name: core.Hex(nameBytes), Size: size, ContSd: g.U64(), Type: byte(g.Intn(5))}
+		if g.Chance(1, 2) {
+			f.Type = g.U8() // the file-type byte is opaque on the wire: any value must be echoed by the 0x9212
+		}
 		var chunks [][2]int
 		for off := 0; off < size; off += cs {
 			l := cs
